@@ -1,6 +1,8 @@
 import GV.Basic.Hex
 import GV.Model.SrcMap
 import GV.Spec.SrcMap
+import GV.Model.SrcMapPath
+import GV.Spec.SrcMapPath
 
 /-!
   Driver for C19 (topic `srcmap`). Byte strings in hex, chunk lists comma-separated (`.` = no chunk).
@@ -129,6 +131,25 @@ def handle : List String → String
     let pend := if c.posAvail then s!"1:{c.pos}" else "0"
     let cs := if caps.isEmpty then "-" else ",".intercalate (caps.map toHex)
     s!"{toHex c.output} {pend} {cs}"
+  | [op, gr, gp, fl, lm] =>
+    match parseHex gr, parseHex gp, parseHex fl with
+    | some goroot, some gopath, some file =>
+      let strip (n : Bytes) : Bytes := n.dropWhile (· = 47)
+      let show_ (raw : Bool) (n : Bytes) : String :=
+        if n.isEmpty || (!raw && (strip n).isEmpty) then "nosource" else s!"name {toHex (if raw then n else strip n)}"
+      if op == "normraw" || op == "norm" then
+        show_ (op == "normraw") (GV.SrcMapPath.normalizePath (lm == "1") goroot gopath file)
+      else if op == "normold" then       -- the scheme before the repair c63a0c1 (regression witnesses)
+        match GV.SrcMapPath.normalizePathOld (lm == "1") goroot gopath file with
+        | some n => show_ false n
+        | none => "panic:slice-bounds"
+      else if op == "normspec" then
+        if lm == "1" then show_ false file
+        else
+          let roots := (GV.SrcMapPath.splitList gopath ++ [goroot]).map GV.PathClean.clean
+          show_ false (GV.Spec.SrcMapPath.name roots file)
+      else "bad-op"
+    | _, _, _ => "bad-op"
   | _ => "bad-op"
 
 end GV.Driver.C19
